@@ -1,4 +1,4 @@
-//go:build verif
+//go:build verif && verif_tls
 
 // Export shim injected into package l4tls with `go test -overlay` by the
 // verification harness in /verif. It only adds a function.
